@@ -42,13 +42,17 @@ func bump(b *broadcast.Broadcast, how int) {
 
 // waiter runs Wait(ctx, x >= k [error at x == errAt]) and checks its result.
 func waiter(b *broadcast.Broadcast, ctx context.Context, k, errAt int64, errObj error) {
-	lastTrue, calls := false, 0
+	lastTrue, calls, errCalls := false, 0, 0
 	label("Broadcast.Wait")
 	err := b.Wait(ctx, func(bc func(), getWaitCh func() <-chan struct{}) (bool, error) {
 		calls++
+		if errCalls > 0 {
+			fail("C03.error-swallowed", "the predicate returned an error on call %d, yet it is evaluated again (call %d): Wait did not return that error", errCalls, calls)
+		}
 		x := vsched.Ctr(cX)
 		if errAt > 0 && x == errAt {
 			lastTrue = false
+			errCalls = calls
 			return false, errObj
 		}
 		if errAt < 0 && x >= -errAt {
@@ -61,6 +65,9 @@ func waiter(b *broadcast.Broadcast, ctx context.Context, k, errAt int64, errObj 
 	})
 	label("")
 	vsched.Observe(oRet, k, b2i(err == nil), int64(calls))
+	if errCalls > 0 && err != errObj {
+		fail("C03.error-swallowed", "the predicate returned its error on call %d but Wait returned %v", errCalls, err)
+	}
 	switch {
 	case err == nil:
 		if !lastTrue {
@@ -335,6 +342,56 @@ func init() {
 					b.HoldLockMaybeAsync(cb)
 				}
 			})
+			vsched.Settle()
+			b.HoldLock(func(bc func(), getWaitCh func() <-chan struct{}) { check("final") })
+		},
+	})
+	eng.Register(&eng.Scenario{
+		Name: "bcast-generation-cancel", Props: []string{"C03"}, MustFinish: true, ObsNames: stdObs,
+		Doc:   "Broadcast generation oracle with a waiter that gives up: an observer obtains wait channels in three critical sections while a Wait whose predicate never holds is cancelled (or its deadline context expires; choice) and one bumper broadcasts once: a cancelled waiter is not a broadcast - a channel handed out at broadcast count g is closed iff the count is now > g",
+		Quick: eng.Bounds{PB: 2}, Thorough: eng.Bounds{PB: 3},
+		Body: func() {
+			var b broadcast.Broadcast
+			check := func(where string) {
+				nb := vsched.Ctr(cNB)
+				for i := 0; i < int(vsched.Ctr(cHeld)); i++ {
+					ch := vsched.GetCell(i).(<-chan struct{})
+					g := vsched.Ctr(cGen0 + i)
+					if closed := vsched.ChanClosed(ch); closed != (nb > g) {
+						fail("C03.generation", "%s: channel handed out at broadcast count %d is closed=%v but the count is now %d", where, g, closed, nb)
+					}
+				}
+			}
+			var ctx context.Context
+			var giveUp func()
+			if vsched.Choose(2) == 0 {
+				c, cancel := context.WithCancel(bg)
+				ctx, giveUp = c, cancel
+			} else {
+				c := newExpCtx(bg)
+				ctx, giveUp = c, c.expire
+			}
+			T("O", func() {
+				for i := 0; i < 3; i++ {
+					b.HoldLock(func(bc func(), getWaitCh func() <-chan struct{}) {
+						check("observer section")
+						n := int(vsched.Ctr(cHeld))
+						vsched.SetCell(n, getWaitCh())
+						vsched.CtrSet(cGen0+n, vsched.Ctr(cNB))
+						vsched.CtrAdd(cHeld, 1)
+					})
+				}
+			})
+			T("W", func() {
+				err := b.Wait(ctx, func(func(), func() <-chan struct{}) (bool, error) { return false, nil })
+				if err != context.Canceled {
+					fail("C03.error-changed", "Wait with a never-true predicate returned %v", err)
+				}
+			})
+			T("C", func() { vsched.CtrSet(cCancel, 1); giveUp() })
+			if vsched.Choose(2) == 1 {
+				T("B", func() { bump(&b, 0) })
+			}
 			vsched.Settle()
 			b.HoldLock(func(bc func(), getWaitCh func() <-chan struct{}) { check("final") })
 		},
